@@ -271,3 +271,13 @@ def c05_orphan_disturbs_nothing(ctx, v):
         return v.undecided("the fork-choice comparison was never reached")
     v.covers_total += 1
     v.covers_sat += 1 if reached else 0
+
+
+def c05_reorg_winds_whole_chain(ctx, v):
+    """the tip only moves to a chain that was validated and applied block by block: on success the
+    dispatcher (Blockchain::validate + wind_chain + unwind_chain) unwinds the old segment and
+    winds EVERY block of the new one, fork point first, whatever the two lengths (same
+    exploration as C04 c04_machine; the failed-reorganisation classes are the same listed known
+    finding)."""
+    from . import obl_c04
+    obl_c04.c04_machine(ctx, v, pid="C05", obligation="c05_reorg_winds_whole_chain")
